@@ -51,6 +51,8 @@ func replay(cw *caseWriter, path string) {
 			c07exec(cw, tag, in, true)
 		case 11:
 			c11exec(cw, tag, in)
+		case 12:
+			c12replay(cw, tag, in)
 		case 14:
 			c14replay(cw, tag, in)
 		case 8:
